@@ -53,6 +53,11 @@ Theorem C19_bert_buffer : forall m, 1024 <= m ->
 Proof. exact bert_buffer. Qed.
 Print Assumptions C19_bert_buffer.
 
+(* ... also when the maximum message size is below one block: nothing fits *)
+Theorem C19_bert_buffer_small : forall m, 0 <= m < 1024 -> buffer_size 7 m = 0.
+Proof. exact bert_buffer_small. Qed.
+Print Assumptions C19_bert_buffer_small.
+
 Theorem C19_nonbert_buffer : forall szx m, 0 <= szx <= 6 -> buffer_size szx m = 2 ^ (szx + 4).
 Proof. exact nonbert_buffer. Qed.
 Print Assumptions C19_nonbert_buffer.
